@@ -32,6 +32,7 @@ func (m *Model) CreatePublication(publication *traits.Publication, opts ...resou
 		resource.WithGenIDIfAbsent(), resource.WithIDCallback(func(id string) {
 			publication.Id = id
 		}),
+		resource.WithMoreWritablePaths("id"), // the id is the model's to write, whatever writable fields were configured
 		m.withComputedProperties(args),
 	))
 }
